@@ -16,7 +16,8 @@ EXPLANATION = (
     "that prefix; every role not fixed by the bounds is checked by *its own* matcher on *its own* position (filter closure "
     "or MatchingIterator argument order), and every returned iterator yields (g,[s,p,o]) / [s,p,o] in that order "
     "(re-ordering closures evaluated abstractly — this also discharges the unwrap_unchecked of the term slots). (R1.3) an "
-    "unknown constant returns empty / Ok(false) without touching a set. (R1.4) all ensure_index calls precede the first set "
+    "unknown constant returns empty / Ok(false) without touching a set. (R1.4) a full term index reports it before changing "
+    "anything (no path from a mutation to Err in ensure_index), and all ensure_index calls precede the first set "
     "mutation. (R1.5) the five matching iterators: field k built from (matcher k, first[k]); update(k) gets element k, its "
     "optional guard compares element k with field k's cached index, a field built with `uninit` is updated "
     "unconditionally, Some(..) is returned only under every field's flag. (R1.6) every override of constant() has an "
@@ -586,8 +587,71 @@ def counters_rule(ck, facts):
     ck.floor("R1.7", "bulk mutation defaults", n, 8)
 
 
+MUTATORS = r"Vec::<T, A>::(push|insert|extend_from_slice|truncate|pop|remove|clear)$|VacantEntry::<'a, K, V, A>::insert(_entry)?$|" \
+           r"Entry::<'a, K, V, A>::(or_insert|or_insert_with|or_default)$|HashMap::<K, V, S, A>::(insert|remove|clear)$|" \
+           r"BTree(Set|Map)::<.*>::(insert|remove|clear)$"
+
+
+def index_full_rule(ck, facts):
+    """R1.4b: a term index reports `index full` *before* it changes anything: in every ensure_index of sophia_inmem no
+    path leads from a mutation of the index (push / entry insert / map insert) to a return of Err(..) — otherwise a
+    rejected insertion leaves a term registered under the reserved index MAX (the default graph's) or a dangling slot."""
+    fns = [f for f in facts.fns.values() if f.crate == "sophia_inmem" and f.kind != "Closure"
+           and re.search(r"TermIndex>::ensure_index$", f.name)]
+    for fn in fns:
+        errs = [bi for bi, b in enumerate(fn.blocks) if not b.get("cleanup") for st in b["s"]
+                if st[0] == "=" and st[1] == [0] and st[2][0] == "agg" and st[2][1].get("vname") == "Err"]
+        muts = [(bi, t) for f2 in [fn] for bi, t in f2.calls() if call_name_matches(t, MUTATORS)]
+        late = [(bi, t) for bi, t in muts if any(e in fn.reachable(t["to"]) for e in errs)]
+        short = fn.name.split(" as ")[0].lstrip("<")
+        if not errs:
+            ck.ok("R1.4b", "%s::ensure_index cannot fail" % short, nontrivial=False)
+        elif late:
+            bi, t = late[0]
+            ck.bad("R1.4b", "R1.4b@%s::ensure_index#mutation-before-failure" % short,
+                   "%s mutates the index (%s) on a path that can still return Err(index full): the rejected term stays registered"
+                   % (short, t["f"]["name"].split("::")[-1]), "%s:%s" % (t["file"], t["line"]))
+        else:
+            ck.ok("R1.4b", "%s::ensure_index: Err(index full) is returned before any mutation (%d mutation sites, %d error returns)"
+                  % (short, len(muts), len(errs)))
+    ck.floor("R1.4b", "ensure_index implementations in sophia_inmem", len(fns), 1)
+
+
+def who_may_write_rule(ck, facts):
+    """R1.8: the ordered index sets of the stores are borrowed mutably only by the primitives `insert` and `remove` (whose
+    pairing of primary and secondary writes R1.1 decides).  Any other function of sophia_inmem taking `&mut` of a BTreeSet
+    (a bulk-loading override, a helper, a `retain`) bypasses that pairing and must be audited."""
+    allowed = re.compile(r"^<(dataset|graph)::Generic(Fast|Light)(Dataset|Graph)<TI> as sophia_api::(dataset::MutableDataset|graph::MutableGraph)>::(insert|remove)$")
+    n = 0
+    offenders = {}
+    for fn in facts.fns.values():
+        if fn.crate != "sophia_inmem":
+            continue
+        root = fn if fn.kind != "Closure" else facts.fns.get(fn.root, fn)
+        if root.impl and root.impl.get("derived"):
+            continue
+        for b in fn.blocks:
+            if b.get("cleanup"):
+                continue
+            for st in b["s"]:
+                if st[0] == "=" and st[2][0] == "ref" and st[2][1] == "mut" and len(st[1]) == 1 \
+                        and fn.locals[st[1][0]]["ty"].startswith("&mut std::collections::BTreeSet<"):
+                    n += 1
+                    if not allowed.match(root.name):
+                        offenders.setdefault(root.name, "%s:%s" % (fn.file, st[3]))
+    for name, loc in sorted(offenders.items()):
+        ck.bad("R1.8", "R1.8@%s#mutates-index-set" % name,
+               "%s takes `&mut` of an ordered index set outside insert/remove: the primary/secondary pairing decided by R1.1 does "
+               "not cover it (e.g. a bulk insertion that fills one index first leaves the others behind when the stream fails)" % name, loc)
+    if not offenders:
+        ck.ok("R1.8", "index sets are mutably borrowed only in insert/remove of the four stores (%d borrows)" % n)
+    ck.floor("R1.8", "mutable borrows of index sets", n, 20)
+
+
 def run(ck, facts, tier):
     facts.require_crates(["sophia_inmem", "sophia_api", "sophia_sparql"])
+    index_full_rule(ck, facts)
+    who_may_write_rule(ck, facts)
     total_scans = 0
     for store, kind, n in STORES:
         perms = mutation_rule(ck, facts, store, kind, n)
